@@ -236,6 +236,26 @@ def schema_semantic(a, b, data):
     return n, None
 
 
+def union_order_conflict(trees):
+    """typing (List[Union[A, B]] is List[Union[B, A]]: parametrisation cache) and apischema (F21, type-keyed caches)
+    identify unions that differ only by the order of their members; a program that contains the same union in two
+    orders cannot be given a well-defined expectation"""
+    from vf.spec import Union_, flat_alts
+
+    seen = {}
+    for t in trees:
+        for n in walk_all(t):
+            if isinstance(n, Union_):
+                order = []
+                for a in flat_alts(n):
+                    sg = a.ann()
+                    if sg not in order:
+                        order.append(sg)
+                if seen.setdefault(frozenset(order), order) != order:
+                    return True
+    return False
+
+
 # ---------------------------------------------------------------- one graph
 class Case:
     """one generated graph, materialised"""
@@ -275,25 +295,8 @@ class Case:
             self.plans.append(pl)
 
     def union_order_conflict(self):
-        """typing (List[Union[A, B]] is List[Union[B, A]]: parametrisation cache) and apischema (F21, type-keyed caches)
-        identify unions that differ only by the order of their members; a program that contains the same union in two
-        orders cannot be given a well-defined expectation"""
-        from vf.spec import Union_, flat_alts
-
-        seen = {}
         trees = [self.top] + [r.src for k in self.classes for r in k.all_roles()] + [t for pl in self.plans for t in pl["refs"].values()]
-        for t in trees:
-            for n in walk_all(t):
-                if isinstance(n, Union_):
-                    order = []
-                    for a in flat_alts(n):
-                        sg = a.ann()
-                        if sg not in order:
-                            order.append(sg)
-                    key = frozenset(order)
-                    if seen.setdefault(key, order) != order:
-                        return True
-        return False
+        return union_order_conflict(trees)
 
     def source(self):
         decls = {}
@@ -1021,6 +1024,9 @@ def family_identity(env, g):
     dt = g.object(0, kind="dataclass", nfields=rng.choice([1, 2, 3]), allow_flatten=False)
     g.max_depth = save
     s = gg.leaf(small=True)
+    if union_order_conflict([dt, s]):
+        env.count("abstain:same union in two member orders inside one program (typing cache / F21)")
+        return
     decls = {}
     dt.collect(decls)
     s.collect(decls)
